@@ -38,15 +38,17 @@ def matrix(tier):
     # the StarPU executors against the API-compatible mock header, and the selector header with several runtimes enabled at once
     for D in (1, 2, 3, 4):
         for periodic in (0, 1):
-            tus.append(("StarPU executor (mock runtime) D=%d periodic=%d" % (D, periodic), core.harness_spec(D, periodic, omp=True, starpu=True), None))
+            tus.append(("StarPU and Specx executors (mock runtimes) D=%d periodic=%d" % (D, periodic), core.harness_spec(D, periodic, omp=True, starpu=True), None))
     for D in (2, 3):
-        tus.append(("StarPU target/source executor (mock runtime) D=%d" % D, tsm.harness_spec(D, 0, starpu=True), None))
+        tus.append(("StarPU and Specx target/source executors (mock runtimes) D=%d" % D, tsm.harness_spec(D, 0, starpu=True), None))
     import os
     inc = "-I" + os.path.join(common.VERIF, "harness", "mock_starpu")
-    for label, defs in (("OpenMP + StarPU", ["-DTBF_USE_OPENMP", "-DTBF_USE_STARPU"]), ("OpenMP only", ["-DTBF_USE_OPENMP"]), ("StarPU only", ["-DTBF_USE_STARPU"]), ("no runtime", [])):
+    inc2 = "-I" + os.path.join(common.VERIF, "harness", "mock_specx")
+    for label, defs in (("OpenMP + Specx + StarPU", ["-DTBF_USE_OPENMP", "-DTBF_USE_SPECX", "-DTBF_USE_STARPU"]), ("OpenMP + StarPU", ["-DTBF_USE_OPENMP", "-DTBF_USE_STARPU"]),
+                        ("OpenMP + Specx", ["-DTBF_USE_OPENMP", "-DTBF_USE_SPECX"]), ("OpenMP only", ["-DTBF_USE_OPENMP"]), ("StarPU only", ["-DTBF_USE_STARPU"]), ("no runtime", [])):
         tus.append(("algorithm selector header, %s" % label,
                     {"name": "h_selecter_" + "_".join(d[10:].lower() for d in defs) if defs else "h_selecter_none",
-                     "sources": ["h_selecter.cpp", "mock_starpu.cpp", "mock_gomp.cpp"], "flags": ["-fopenmp", inc] + defs}, "selecter"))
+                     "sources": ["h_selecter.cpp", "mock_starpu.cpp", "mock_gomp.cpp"], "flags": ["-fopenmp", inc, inc2] + defs}, "selecter"))
     return tus
 
 
